@@ -15,6 +15,7 @@
 #endif
 #define ENS_CLONE_PAYLOADS ENS_CLONE_LITERAL ENS_CLONE_IMAGINARY
 
+#ifndef ENFORCING_VALUE_CORE   /* the jobs value_move_* prove these contracts on the real bodies */
 /* Value& Value::operator=(Value&& v) noexcept : move; the source is left null */
 struct Value *_ZN4bloc5ValueaSEOS0_(struct Value *this, struct Value *v)
 __CPROVER_requires(__exc == 0)
@@ -38,6 +39,8 @@ __CPROVER_ensures(this->_flags == __CPROVER_old(v->_flags) && V_MAJOR(this) == _
                   V_LEVEL(this) == __CPROVER_old(V_LEVEL(v)) && this->_value.i == __CPROVER_old(v->_value.i) && v->_flags == 0)
 ;
 
+#endif
+#ifndef ENFORCING_VALUE_CLEAR   /* the job value_clear proves the stronger form on the real body */
 /* void Value::_clear() noexcept : releases the payload, clears NOTNULL */
 void _ZN4bloc5Value6_clearEv(struct Value *this)
 __CPROVER_requires(__exc == 0)
@@ -45,6 +48,7 @@ __CPROVER_assigns(this->_flags)
 __CPROVER_ensures(__exc == 0)
 __CPROVER_ensures(this->_flags == (__CPROVER_old(this->_flags) & ~F_NOTNULL))
 ;
+#endif
 
 /* Value& Context::allocate(Value&& v) : moves v into a slot of the temporary pool */
 struct Value *_ZN4bloc7Context8allocateEONS_5ValueE(struct Context *this, struct Value *v)
@@ -72,6 +76,14 @@ ENS_CLONE_PAYLOADS
 ;
 #endif
 
+#ifndef ENFORCING_VALUE_CORE
+/* void Value::swap(Value& v) noexcept : exchange of two values (no payload is released) */
+void _ZN4bloc5Value4swapERS0_(struct Value *this, struct Value *v)
+{
+  struct Value t; t._flags = this->_flags; t._type._major = this->_type._major; t._type._minor = this->_type._minor; t._type._level = this->_type._level; t._value.i = this->_value.i;
+  this->_flags = v->_flags; this->_type._major = v->_type._major; this->_type._minor = v->_type._minor; this->_type._level = v->_type._level; this->_value.i = v->_value.i;
+  v->_flags = t._flags; v->_type._major = t._type._major; v->_type._minor = t._type._minor; v->_type._level = t._type._level; v->_value.i = t._value.i;
+}
 /* void Value::swap(Value&& v) noexcept : move v into *this (the old payload is released), v is left null */
 void _ZN4bloc5Value4swapEOS0_(struct Value *this, struct Value *v)
 __CPROVER_requires(__exc == 0)
@@ -82,6 +94,7 @@ __CPROVER_ensures(this != v ==> (this->_flags == __CPROVER_old(v->_flags) && V_M
 __CPROVER_ensures(this == v ==> (this->_flags == __CPROVER_old(this->_flags) && this->_value.i == __CPROVER_old(this->_value.i) && V_MAJOR(this) == __CPROVER_old(V_MAJOR(this)) &&
                                  V_MINOR(this) == __CPROVER_old(V_MINOR(this)) && V_LEVEL(this) == __CPROVER_old(V_LEVEL(this))))
 ;
+#endif
 /* Value::Value(Literal * v) */
 struct std_string;
 void _ZN4bloc5ValueC1EPNSt7__cxx1112basic_stringIcSt11char_traitsIcESaIcEEE(struct Value *this, struct std_string *v)
